@@ -14,6 +14,7 @@ from audiolazy.lazy_stream import Stream
 
 MAXLEN = int(os.environ.get("CH_MAXLEN", "6"))
 MAXHOP = int(os.environ.get("CH_MAXHOP", "5"))
+MAXPAD = int(os.environ.get("CH_MAXPAD", "4"))
 
 
 def ref_blocks(seq, size, hop, pad):
@@ -61,7 +62,7 @@ def check_stream_blocks(seq: List[int], size: int, pad: int) -> bool:
 
 def check_zero_pad(seq: List[int], left: int, right: int, zero: int) -> bool:
   """
-  pre: 0 <= left <= 4 and 0 <= right <= 4 and len(seq) <= MAXLEN
+  pre: 0 <= left <= MAXPAD and 0 <= right <= MAXPAD and len(seq) <= MAXLEN
   post: _
   """
   left = realize(left); right = realize(right)
@@ -70,7 +71,7 @@ def check_zero_pad(seq: List[int], left: int, right: int, zero: int) -> bool:
 
 def check_zero_pad_twin(seq: List[int], left: int, right: int, zero: int) -> bool:
   """
-  pre: 0 <= left <= 4 and 0 <= right <= 4 and len(seq) <= MAXLEN
+  pre: 0 <= left <= MAXPAD and 0 <= right <= MAXPAD and len(seq) <= MAXLEN
   post: not _
   """
   left = realize(left); right = realize(right)
